@@ -100,7 +100,13 @@ def path_function(h):
             m.check(); bad = (concrete_false[0], m.model())
         else:
             sym = [f for l, f in conds]
-            if sym and m.check(z3.Not(z3.And(*sym)) if len(sym) > 1 else z3.Not(sym[0])):
+            q = (z3.Not(z3.And(*sym)) if len(sym) > 1 else z3.Not(sym[0])) if sym else None
+            verdict = m.check(q) if sym else False
+            if sym and h._rng.random() < getattr(h, 'cvc5_rate', 0.01):
+                so = m.second_opinion([q], verdict)
+                res['cvc5'] = so
+                if so == 'disagree': raise Inconclusive('z3 and cvc5 disagree on the assertion query of this path')
+            if verdict:
                 mdl = m.model(); lab = None
                 for l, f in conds:
                     if z3.is_false(mdl.eval(f, model_completion=True)): lab = l; break
@@ -135,7 +141,7 @@ Harness.sample_this_path = _default_sample
 def _task(prefix, budget, deadline):
     m = _W['m']; drv = _W['drv']
     q0 = dict(m.stats)
-    res = {'ok': 0, 'violation': [], 'inconclusive': [], 'panic_ok': 0, 'witness': {}, 'samples': [], 'nconds': 0, 'paths': 0, 'maxdepth': 0, 'vlabels': {}}
+    res = {'ok': 0, 'violation': [], 'inconclusive': [], 'panic_ok': 0, 'witness': {}, 'samples': [], 'nconds': 0, 'paths': 0, 'maxdepth': 0, 'vlabels': {}, 'cvc5': {}}
     for tr, pc, st, v in m.explore(drv, prefix, max_paths=budget):
         res['paths'] += 1; res['maxdepth'] = max(res['maxdepth'], len(tr))
         if st == 'ok':
@@ -143,6 +149,7 @@ def _task(prefix, budget, deadline):
                 res['ok'] += 1; res['nconds'] += v.get('nconds', 0)
                 for k in v.get('witness', {}): res['witness'][k] = res['witness'].get(k, 0) + 1
                 if 'sample' in v and len(res['samples']) < 3: res['samples'].append(v['sample'])
+                if 'cvc5' in v: res['cvc5'][v['cvc5']] = res['cvc5'].get(v['cvc5'], 0) + 1
             else:
                 for vv in [v] + v.get('more', []):
                     key = vv['label']
@@ -169,7 +176,7 @@ def run_harness(ast_path, mod, cls, kw, seed=0, workers=None, time_cap=120, path
     t0 = time.time(); deadline = t0 + time_cap
     agg = {'harness': cls, 'kw': {k: v for k, v in kw.items() if isinstance(v, (int, str, bool, float, list))}, 'paths': 0, 'ok': 0, 'violations': [], 'violation_count': 0,
            'inconclusive': [], 'inconclusive_n': 0, 'witness': {}, 'samples': [], 'nconds': 0, 'maxdepth': 0,
-           'stats': {}, 'called': set(), 'complete': True, 'char_splits': 0, 'vlabel_n': {}}
+           'stats': {}, 'called': set(), 'complete': True, 'char_splits': 0, 'vlabel_n': {}, 'cvc5': {}}
     queue = [[]]
     with ProcessPoolExecutor(max_workers=workers, initializer=_init, initargs=(ast_path, mod, cls, kw, seed)) as ex:
         pending = set()
@@ -195,6 +202,7 @@ def run_harness(ast_path, mod, cls, kw, seed=0, workers=None, time_cap=120, path
                 for s in r['samples']:
                     if len(agg['samples']) < 12: agg['samples'].append(s)
                 for k, n in r['stats'].items(): agg['stats'][k] = agg['stats'].get(k, 0) + n
+                for k, n in r.get('cvc5', {}).items(): agg['cvc5'][k] = agg['cvc5'].get(k, 0) + n
                 agg['called'].update(r['called']); agg['char_splits'] = max(agg['char_splits'], r['char_splits']); agg['probe_splits'] = max(agg.get('probe_splits', 0), r.get('probe_splits', 0)); agg['di_broken'] = max(agg.get('di_broken', 0), r.get('di_broken', 0))
                 queue.extend(r['leftover'])
             if (time.time() >= deadline or agg['paths'] >= path_cap) and queue:
